@@ -750,12 +750,16 @@ class Explorer:
             for val, tg in targets:
                 listed.add(val)
                 e2 = dict(env)
-                self.refine(e2, sloc, src, val, rec)
-                stack.append((tg, 0, e2, (events | {('branch', btag, val)}) if btag else events, dsrc, visits))
+                vev = self.refine(e2, sloc, src, val, rec)
+                ev2 = (events | {('branch', btag, val)}) if btag else events
+                if vev and self.trace:
+                    ev2 = ev2 | {vev}
+                stack.append((tg, 0, e2, ev2, dsrc, visits))
             # otherwise
             e2 = dict(env)
             if sloc is not None:
                 ty = rec['locals'][sloc][0]
+                vev = None
                 if ty == 'bool' and listed == {0}:
                     self.refine(e2, sloc, src, 1, rec)
                 elif src is not None and src[0] not in ('alias', 'notalias'):
@@ -764,7 +768,9 @@ class Explorer:
                     if vn:
                         rest = [i for i in range(len(vn)) if discr_of(self.facts, src[2], i) not in listed]
                         if len(rest) == 1:
-                            self.refine(e2, sloc, src, discr_of(self.facts, src[2], rest[0]), rec)
+                            vev = self.refine(e2, sloc, src, discr_of(self.facts, src[2], rest[0]), rec)
+                            if vev and self.trace:
+                                events = events | {vev}
                         elif len(rest) == 0:
                             return  # unreachable otherwise
             if btag:
@@ -830,6 +836,8 @@ class Explorer:
                     root = env.get(loc, TOP)
                     # write through references: rebuild along projs
                     env[loc] = self._write_through(root, projs, new)
+                    if cur.tag:
+                        return ('variant', cur.tag, adt, vn[vi])
 
     def _write_through(self, root, projs, new):
         if not projs:
